@@ -44,10 +44,11 @@ def write_parameters(model_dir, names, columns):
     t.write(os.path.join(model_dir, 'parameters.fits'), overwrite=True)
 
 
-def make_extinction(wav_um, chi):
+def make_extinction(wav_um, chi, wav_unit=None):
+    """Extinction law; `wav_um` holds the wavelength column's numbers in `wav_unit` (default micron)"""
     from sedfitter.extinction import Extinction
     e = Extinction()
-    e.wav = np.array(wav_um, dtype=float) * u.micron
+    e.wav = np.array(wav_um, dtype=float) * (wav_unit or u.micron)
     e.chi = np.array(chi, dtype=float) * u.cm ** 2 / u.g
     return e
 
